@@ -52,6 +52,39 @@ func runC17Followup(c *Ctx) {
 				case "prepare":
 					w.Eng.AddFault(memdb.Fault{Kind: "xa_prepare", Nth: 1})
 				}
+				// the case as a sequence of operations on the connection (model op `xaconn`): s:<fault> a statement,
+				// b:<fault> BeginTx, c:<fault> tx.Commit, r tx.Rollback
+				var mops []string
+				fk := func(k int, kinds ...string) string {
+					if k == 0 {
+						for _, kd := range kinds {
+							if fault == kd {
+								return fault
+							}
+						}
+					}
+					return "none"
+				}
+				for k, explicit := range []bool{explicit1, explicit2} {
+					if fault == "stmt" && explicit1 && explicit2 {
+						mops = []string{"b:none", "s:stmt", "s:none", "c:none"}
+						break
+					}
+					if !explicit {
+						mops = append(mops, "s:"+fk(k, "register", "start", "stmt", "end", "prepare"))
+						continue
+					}
+					if bf := fk(k, "register", "start"); bf != "none" {
+						mops = append(mops, "b:"+bf)
+						continue
+					}
+					mops = append(mops, "b:none", "s:"+fk(k, "stmt"))
+					if fk(k, "stmt") != "none" {
+						mops = append(mops, "r")
+					} else {
+						mops = append(mops, "c:"+fk(k, "end", "prepare"))
+					}
+				}
 				var errs [2]error
 				var xid string
 				crash := safeCall(func() {
@@ -114,6 +147,7 @@ func runC17Followup(c *Ctx) {
 				}
 				// ---- the trace of the connection
 				var toks []string
+				var inside []string
 				inBranch := false
 				bare := 0
 				rollbacks := map[string]int{}
@@ -134,12 +168,19 @@ func runC17Followup(c *Ctx) {
 					case e.Kind == "update" && !inBranch:
 						bare++
 					}
+					if e.Kind == "update" {
+						inside = append(inside, fmt.Sprint(b2i(inBranch)))
+					}
 					if e.Kind == "xa_rollback" {
 						rollbacks[xaIDOf(e.SQL)]++
 					}
 				}
 				final := w.DumpTable(table)
-				c.Out.Case(cid, "C17", "skip", "skip")
+				flags := "-"
+				if len(inside) > 0 {
+					flags = strings.Join(inside, ",")
+				}
+				c.Out.Case(cid, "C17", "xaconn "+strings.Join(mops, " "), "inside="+flags)
 				class, detail := "", ""
 				fail := func(cl, d string) {
 					if class == "" {
